@@ -6,7 +6,8 @@ CONSTANTS
   FixAttach = FALSE
   Literal = FALSE
   FixDel = FALSE
+  CreateNils = TRUE
 SPECIFICATION Spec
-INVARIANTS MutualExclusion NoDeadlock NoLockLeft ReturnedHoldNothing Linearizable
+INVARIANTS MutualExclusion NoUseAfterRelease NoDeadlock NoLockLeft ReturnedHoldNothing Linearizable
 PROPERTIES EveryOpReturns
 CHECK_DEADLOCK FALSE
